@@ -806,25 +806,7 @@ func ruleEmitCoversState(c *Ctx) {
 		// conditions that are about the thing being emitted mention it: the parameters of the enclosing
 		// callbacks (the object, the field) or a local of hook/object/field type; a condition on other
 		// locals only (the batch counter against the batch size) is not a filter on the emitted state
-		subject := func(e ast.Expr) bool {
-			hit := false
-			ast.Inspect(e, func(n ast.Node) bool {
-				id, ok := n.(*ast.Ident)
-				if !ok {
-					return true
-				}
-				v, ok := info.ObjectOf(id).(*types.Var)
-				if !ok {
-					return true
-				}
-				t := v.Type().String()
-				if strings.HasSuffix(t, "server.Hook") || strings.HasSuffix(t, "object.Object") || strings.HasSuffix(t, "field.Field") || strings.HasSuffix(t, "field.Value") {
-					hit = true
-				}
-				return true
-			})
-			return hit
-		}
+		subject := func(e ast.Expr) bool { return mentionsSubject(info, e, derivedFromSubject(info, l)) }
 		if loc.Valid() {
 			for _, f := range fg.DominatingFacts(loc) {
 				if !subject(f.E) && f.Tag == nil {
@@ -917,6 +899,62 @@ func ruleEmitCoversState(c *Ctx) {
 			c.bad(key, found.pos, "%q is emitted under %v (%s): some objects or hooks lose this part of their state in the rewritten log, or get one they did not have", w.word, found.facts, why)
 		}
 	}
+	// the value of a field is emitted in the form the command parser reads the same kind back from: the
+	// parser (field.ValueOf) decides the kind from the text — 90210 is a number, true a boolean, {"a":1} a
+	// document — so a string must arrive quoted, which is what Value.JSON() produces and Value.Data() does not
+	for i := range emits {
+		e := &emits[i]
+		if e.word != "field" || isHookLit(e.lit) {
+			continue
+		}
+		// the appends to the same slice that follow in the same block: name, value
+		var stmts []ast.Stmt
+		var self ast.Node = e.call
+		for p := c.Parent(e.call); p != nil; p = c.Parent(p) {
+			if blk, ok := p.(*ast.BlockStmt); ok {
+				stmts = blk.List
+				break
+			}
+			self = p
+		}
+		var operands []ast.Expr
+		after := false
+		for _, st := range stmts {
+			if st == self {
+				after = true
+				// operands appended by the same call: append(values, "field", name, value)
+				operands = append(operands, e.call.Args[2:]...)
+				continue
+			}
+			if !after {
+				continue
+			}
+			as, ok := st.(*ast.AssignStmt)
+			if !ok || len(as.Rhs) != 1 {
+				break
+			}
+			call, ok := ast.Unparen(as.Rhs[0]).(*ast.CallExpr)
+			if !ok {
+				break
+			}
+			if id, ok := ast.Unparen(call.Fun).(*ast.Ident); !ok || id.Name != "append" || len(call.Args) < 2 || exprStr(call.Args[0]) != exprStr(e.call.Args[0]) {
+				break
+			}
+			operands = append(operands, call.Args[1:]...)
+		}
+		okForm := false
+		what := "no value operand found"
+		if len(operands) >= 2 {
+			v := resolveLocal(info, e.lit.Body, operands[1])
+			what = exprStr(v)
+			if call, ok := ast.Unparen(v).(*ast.CallExpr); ok {
+				if f := callee(info, call); f != nil && isMethod(f, modPath+"/internal/field", "Value", "JSON") {
+					okForm = true
+				}
+			}
+		}
+		c.check(okForm, "object/field-value-form", e.pos, "the field value is emitted as Value.JSON()", "the field value is emitted as "+what+", not in its JSON form: the command parser decides the kind of a field from its text, so a string field whose text looks like a number, a boolean, a document or a quoted string comes back as another kind (or another text) after a restart on the rewritten log")
+	}
 	// accessors read by the object command; 'meta' inside a range over hook.Metas; message arguments appended
 	var objLit *ast.FuncLit
 	for _, e := range emits {
@@ -939,6 +977,26 @@ func ruleEmitCoversState(c *Ctx) {
 			if !have[m] {
 				missing = append(missing, m)
 			}
+		}
+		// every object the scan visits is rewritten: no path of the callback goes on to the next object
+		// (returns true) without having emitted the command
+		var setCall *ast.CallExpr
+		for _, e := range emits {
+			if e.word == "set" && e.lit == objLit {
+				setCall = e.call
+			}
+		}
+		if fgo := graphs[objLit]; fgo != nil && setCall != nil {
+			skip, w := fgo.Reach(PathQuery{
+				Target: func(l Loc) bool {
+					r, ok := l.Node.(*ast.ReturnStmt)
+					return ok && len(r.Results) == 1 && boolConst(info, r.Results[0]) != '0'
+				},
+				Avoid: func(l Loc) bool { return containsNode(l.Block.Nodes[l.Idx], setCall) },
+			})
+			c.checkPath(!skip, "object/every-visited-object-emitted", objLit.Pos(), w,
+				"the callback goes on to the next object only after it has emitted the command for this one",
+				"the object callback can go on to the next object without having emitted a command for the current one: that object is missing from the rewritten log although it is still stored (an object skipped because it is about to expire is lost if its deadline is moved before the sweep: the captured EXPIRE/PERSIST finds nothing to act on at the next start)")
 		}
 		c.check(len(missing) == 0, "object/reads-all-components", objLit.Pos(), "the object command reads ID, Fields, Expires and Geo", fmt.Sprintf("the object command does not read %v of the object", missing))
 	} else {
@@ -1078,4 +1136,83 @@ func ruleRewriteSeesEveryCollection(c *Ctx) {
 	}
 	c.stat("write_handlers_scanned", scanned)
 	c.stat("collection_moves", n)
+}
+
+// mentionsSubject: the expression mentions the thing being rewritten — a variable of hook/object/field
+// type — or a local computed from one (ttl := f(o.Expires())).
+func mentionsSubject(info *types.Info, e ast.Expr, derived map[types.Object]bool) bool {
+	hit := false
+	ast.Inspect(e, func(n ast.Node) bool {
+		id, ok := n.(*ast.Ident)
+		if !ok {
+			return true
+		}
+		v, ok := info.ObjectOf(id).(*types.Var)
+		if !ok {
+			return true
+		}
+		if derived[v] {
+			hit = true
+			return true
+		}
+		t := v.Type().String()
+		if strings.HasSuffix(t, "server.Hook") || strings.HasSuffix(t, "object.Object") || strings.HasSuffix(t, "field.Field") || strings.HasSuffix(t, "field.Value") {
+			hit = true
+		}
+		return true
+	})
+	return hit
+}
+
+var derivedSubjectCache = map[*ast.FuncLit]map[types.Object]bool{}
+
+// derivedFromSubject: the locals of the literal that are assigned from an expression that mentions the
+// subject (transitively).
+func derivedFromSubject(info *types.Info, l *ast.FuncLit) map[types.Object]bool {
+	if d, ok := derivedSubjectCache[l]; ok {
+		return d
+	}
+	d := map[types.Object]bool{}
+	derivedSubjectCache[l] = d
+	for changed := true; changed; {
+		changed = false
+		ast.Inspect(l.Body, func(n ast.Node) bool {
+			mark := func(lhs ast.Expr) {
+				if id, ok := ast.Unparen(lhs).(*ast.Ident); ok {
+					if o := info.ObjectOf(id); o != nil && !d[o] {
+						t := o.Type().String()
+						if t == "[]string" || t == "[]byte" { // the output buffers collect everything
+							return
+						}
+						d[o] = true
+						changed = true
+					}
+				}
+			}
+			switch x := n.(type) {
+			case *ast.AssignStmt:
+				for i, r := range x.Rhs {
+					if mentionsSubject(info, r, d) {
+						if len(x.Lhs) == len(x.Rhs) {
+							mark(x.Lhs[i])
+						} else {
+							for _, lh := range x.Lhs {
+								mark(lh)
+							}
+						}
+					}
+				}
+			case *ast.ValueSpec:
+				for _, r := range x.Values {
+					if mentionsSubject(info, r, d) {
+						for _, nm := range x.Names {
+							mark(nm)
+						}
+					}
+				}
+			}
+			return true
+		})
+	}
+	return d
 }
